@@ -33,6 +33,10 @@ Monitors (all decide on bytes produced by the real library):
                  clump size (8192 / 65468) after, between or behind small
                  ones.
   d_recv route   SynthDef._do_send: when /d_recv is chosen the datagram fits.
+  concurrency    3-6 threads encode at once (send_msg / send_bundle build
+                 outside the main lock; _build_msg / _build_bundle) under
+                 yield injection on the builders: every datagram decodes to
+                 the message its own thread gave, no valid message is refused.
 
 Observation outside the property (counted, never a violation): MIDI 4-tuples
 with values outside 0-255 are masked with & 0xFF (observed_midi_bytes_masked).
@@ -102,6 +106,9 @@ MIN_COUNTERS = {
     'clump_family/big-among-small': 15,
     'clump_cases_bundlenetaddr': 10,
     'drecv_routes_checked': 20,
+    'conc_encodings': 1500,
+    'conc_overlapping_encodings': 500,
+    'conc_injected_yields': 200,
     'packet_sequences_with_timetag_ties': 300,
     'dispatch_sequences_compared': 200,
 }
@@ -123,6 +130,7 @@ def plan(tier, seed):
     add('bundle', 'rt', 5000 if quick else 120_000, 1 if quick else 2)
     add('clump', 'rt', 480 if quick else 20_000, 4 if quick else 4)
     add('drecv', 'rt', 1000 if quick else 20_000, 1)
+    add('conc', 'rt', 60 if quick else 3000, 2 if quick else 3)
     return shards
 
 
@@ -1136,12 +1144,178 @@ def run_drecv(spec, acc):
 
 # --------------------------------------------------------------------------
 
+# --------------------------------------------------------------------------
+# concurrent encoding
+# --------------------------------------------------------------------------
+
+def run_conc(spec, acc):
+    """3-6 threads encode at the same time (NetAddr.send_msg / send_bundle,
+    which build outside the main lock, and _build_msg / _build_bundle) under
+    sys.monitoring yield injection on the builders' code and a 50 us switch
+    interval.  Every packet was accepted and checked single-threaded first;
+    concurrently each must again be accepted and decode (independent strict
+    reader) to exactly the message its own thread gave."""
+    import sys
+    import threading
+    from vf.inject import Injector, func_code
+    cx = Ctx(spec, acc)
+    M, osc, oli, iface = cx.M, cx.osc, cx.oli, cx.iface
+    tls = threading.local()
+
+    def hook(msg, target):
+        cap = getattr(tls, 'cap', None)
+        if cap is not None:
+            cap.append(bytes(msg.dgram))
+    iface._send = hook
+    codes = [func_code(oli.OscMessageBuilder.build),
+             func_code(oli.OscBundleBuilder.build),
+             func_code(oli.OscMessageBuilder.add_arg),
+             func_code(type(iface)._build_msg),
+             func_code(type(iface)._build_bundle),
+             func_code(oli.write_string), func_code(oli.write_blob)]
+    inj = Injector(codes, spec['seed'])
+    inj.p_yield = 0.0           # switched on for the concurrent phase only
+    inj.max_sleep = 0.0003
+    old_switch = sys.getswitchinterval()
+    sys.setswitchinterval(5e-5)
+    inj.start()
+    lock = threading.Lock()
+    state = {'inflight': 0, 'overlaps': 0}
+
+    def build(path, lst, send_time):
+        if path == 'send_msg':
+            tls.cap = cap = []
+            cx.addr.send_msg(*lst)
+            tls.cap = None
+            return cap[0] if len(cap) == 1 else cap
+        if path == 'send_bundle':
+            tls.cap = cap = []
+            cx.addr.send_bundle(lst[0], *lst[1:])
+            tls.cap = None
+            return cap[0] if len(cap) == 1 else cap
+        if path == '_build_msg':
+            return bytes(iface._build_msg(send_time, lst).dgram)
+        return bytes(iface._build_bundle(send_time, lst).dgram)
+
+    def expectation(path, lst, send_time):
+        ttf = cx.ttf_unknown if path.startswith('send') else cx.ttf(send_time)
+        return (M.expect_msg if path.endswith('msg') else M.expect_bundle)(lst, ttf)
+
+    def judge(path, lst, send_time, out):
+        """None or (mechanism, detail)."""
+        if isinstance(out, Exception):
+            return f'valid-message-refused/{type(out).__name__}', repr(out)[:200]
+        if not isinstance(out, bytes):
+            return f'send-handed-{len(out)}-datagrams', ''
+        try:
+            dec = osc.decode(out)
+        except osc.OscError as e:
+            return 'nonconformant-datagram', str(e)
+        mism = M.compare(dec, expectation(path, lst, send_time))
+        if mism:
+            return 'datagram-differs-from-the-message-given', \
+                sorted({M.mechanism(m) for m in mism})[:4]
+        return None
+
+    try:
+        for i in iter_cases(spec):
+            rng = case_rng(spec['seed'], 'C06', 'conc', i)
+            nthreads = rng.randint(3, 6)
+            work = []
+            for t in range(nthreads):
+                items = []
+                size = rng.choice([4, 30, 120, 400])     # arguments per message
+                while len(items) < rng.randint(25, 60):
+                    uid = f'{i}.{t}.{len(items)}'
+                    k = rng.random()
+                    if k < 0.45:       # long /s_new like message
+                        lst = ['/s_new', f'def{t}', len(items), 0, 1, uid]
+                        for a in range(rng.randint(1, size)):
+                            lst += [rng.choice(['freq', 'amp', 'pan', 'é' * (t + 1)]),
+                                    rng.choice([440.0 + t, t, a, b'x' * (t + 1)])]
+                        if rng.random() < 0.3:     # completion message / bundle
+                            lst.append(rng.choice([
+                                ['/n_free', t, uid],
+                                [rng.choice([None, 0.2]), ['/n_set', t, uid]]]))
+                        path = rng.choice(['send_msg', '_build_msg'])
+                    elif k < 0.7:
+                        lst = M.gen_msg(rng, 0, None) + [uid]
+                        path = rng.choice(['send_msg', '_build_msg'])
+                    else:
+                        lst = M.gen_bundle(rng, 0, order='ok')
+                        lst.append(['/id', uid])
+                        path = rng.choice(['send_bundle', '_build_bundle'])
+                    send_time = rng.uniform(0, 100)
+                    # single-threaded reference run: only packets that are
+                    # accepted and correct alone take part
+                    try:
+                        if judge(path, lst, send_time,
+                                 build(path, lst, send_time)) is not None:
+                            continue
+                    except Exception:
+                        continue
+                    items.append((path, lst, send_time))
+                work.append(items)
+            results = [[] for _ in work]
+            barrier = threading.Barrier(nthreads)
+
+            def worker(t):
+                barrier.wait()
+                for path, lst, send_time in work[t]:
+                    with lock:
+                        if state['inflight']:
+                            state['overlaps'] += 1
+                        state['inflight'] += 1
+                    try:
+                        out = build(path, lst, send_time)
+                    except Exception as e:
+                        tls.cap = None
+                        out = e
+                    with lock:
+                        state['inflight'] -= 1
+                    results[t].append(out)
+            threads = [threading.Thread(target=worker, args=(t,), daemon=True)
+                       for t in range(nthreads)]
+            inj.p_yield = 0.01
+            for th in threads:
+                th.start()
+            for th in threads:
+                th.join(60)
+            inj.p_yield = 0.0
+            if any(th.is_alive() for th in threads):
+                acc.mark_inconclusive(f'encoding threads did not finish (case {i})')
+                return
+            bad = 0
+            for t, items in enumerate(work):
+                for (path, lst, send_time), out in zip(items, results[t]):
+                    acc.count('conc_encodings')
+                    acc.count(f'conc_encodings/{path}')
+                    r = judge(path, lst, send_time, out)
+                    if r:
+                        bad += 1
+                        acc.violation(
+                            f'C06/concurrent-encoding/{r[0]}',
+                            {'case': i, 'threads': nthreads, 'path': path,
+                             'given': M.srepr(lst)[:300], 'detail': r[1],
+                             'dgram': out[:200] if isinstance(out, bytes) else None})
+            acc.count('conc_rounds')
+            acc.case(h64((i, nthreads, sum(len(w) for w in work))),
+                     nontrivial=True)
+    finally:
+        inj.stop()
+        sys.setswitchinterval(old_switch)
+    acc.count('conc_overlapping_encodings', state['overlaps'])
+    acc.count('conc_injected_yields', inj.injected)
+
+
 def run_shard(spec, acc):
     kind = spec['shard']['kind']
     if kind == 'clump':
         return run_clump(spec, acc)
     if kind == 'drecv':
         return run_drecv(spec, acc)
+    if kind == 'conc':
+        return run_conc(spec, acc)
     cx = Ctx(spec, acc)
     M = cx.M
     for i in iter_cases(spec):
